@@ -24,6 +24,7 @@ func genNaming(prop string, seed uint64, tier string) Scenario {
 	c.DHCPMode = 1 + r.n(3)
 	c.Debug = r.chance(1, 4)
 	c.PreemptN = r.pick(0, 1, 16)
+	c.ReuseBuf = r.chance(1, 2)
 	n := 3 + r.n(25)
 	for i := 0; i < n; i++ {
 		sc.Ops = append(sc.Ops, Op{K: "nframe", P: r.n(9), M: r.n(4), I: r.n(8), N: r.n(64), X: r.n(16)})
